@@ -30,10 +30,12 @@ func (g *generator) getType(
 ) (goType, error) {
 	typ, ok := g.typeMap[goName]
 	if !ok {
+		g.verifTypeMapEvent("get:absent", goName, graphQLName, selectionSet)
 		return nil, nil
 	}
 
 	if typ.GraphQLTypeName() != graphQLName {
+		g.verifTypeMapEvent("get:conflict", goName, graphQLName, selectionSet)
 		return typ, errorf(
 			pos, "conflicting definition for %s; this can indicate either "+
 				"a genqlient internal error, a conflict between user-specified "+
@@ -44,6 +46,7 @@ func (g *generator) getType(
 
 	expectedSelectionSet := typ.SelectionSet()
 	if err := selectionsMatch(pos, selectionSet, expectedSelectionSet); err != nil {
+		g.verifTypeMapEvent("get:conflict", goName, graphQLName, selectionSet)
 		return typ, errorf(
 			pos, "conflicting definition for %s; this can indicate either "+
 				"a genqlient internal error, a conflict between user-specified "+
@@ -51,6 +54,7 @@ func (g *generator) getType(
 			goName, err)
 	}
 
+	g.verifTypeMapEvent("get:reuse", goName, graphQLName, selectionSet)
 	return typ, nil
 }
 
@@ -67,6 +71,7 @@ func (g *generator) addType(typ goType, goName string, pos *ast.Position) (goTyp
 	if otherTyp != nil || err != nil {
 		return otherTyp, err
 	}
+	g.verifTypeMapEvent("insert", goName, typ.GraphQLTypeName(), typ.SelectionSet())
 	g.typeMap[goName] = typ
 	return typ, nil
 }
@@ -877,6 +882,7 @@ func (g *generator) convertNamedFragment(fragment *ast.FragmentDefinition) (goTy
 			descriptionInfo: desc,
 			Generator:       g,
 		}
+		g.verifTypeMapEvent("write", fragment.Name, goType.GraphQLTypeName(), goType.SelectionSet())
 		g.typeMap[fragment.Name] = goType
 		return goType, nil
 	case ast.Interface, ast.Union:
@@ -888,6 +894,7 @@ func (g *generator) convertNamedFragment(fragment *ast.FragmentDefinition) (goTy
 			Selection:       fragment.SelectionSet,
 			descriptionInfo: desc,
 		}
+		g.verifTypeMapEvent("write", fragment.Name, goType.GraphQLTypeName(), goType.SelectionSet())
 		g.typeMap[fragment.Name] = goType
 
 		for i, implDef := range implementationTypes {
@@ -908,6 +915,7 @@ func (g *generator) convertNamedFragment(fragment *ast.FragmentDefinition) (goTy
 				Generator:       g,
 			}
 			goType.Implementations[i] = implTyp
+			g.verifTypeMapEvent("write", implTyp.GoName, implTyp.GraphQLTypeName(), implTyp.SelectionSet())
 			g.typeMap[implTyp.GoName] = implTyp
 		}
 
